@@ -1,4 +1,5 @@
 pub mod c05;
+pub mod c09;
 pub mod hist;
 
 use crate::harness::Arm;
@@ -7,6 +8,7 @@ pub fn all_arms() -> Vec<Box<dyn Arm>> {
     let mut v: Vec<Box<dyn Arm>> = vec![];
     v.extend(hist::arms());
     v.push(Box::new(c05::C05));
+    v.push(Box::new(c09::C09));
     v
 }
 
